@@ -212,20 +212,28 @@ def landscapes_and_tables(spec_cases: list[dict]) -> dict:
         band = jnp.array([3.0, 1.0, 0.5], dtype=jnp.float32)
         for m in toeplitz.SymmetricBandToeplitzOperator.METHODS:
             yield f'toeplitz_{m}', (lambda m=m: toeplitz.SymmetricBandToeplitzOperator(band, s5, method=m))
+        s4 = jax.ShapeDtypeStruct((4,), jnp.float32)
+        s8 = jax.ShapeDtypeStruct((8,), jnp.float32)
+        yield 'toeplitz_short_k3', (lambda: toeplitz.SymmetricBandToeplitzOperator(band, s4))            # default method and FFT size
+        yield 'toeplitz_short_k5', (lambda: toeplitz.SymmetricBandToeplitzOperator(
+            jnp.array([3.0, 1.0, 0.5, 0.25, 0.125], dtype=jnp.float32), s8))
         yield 'diagonal', (lambda: diagonal.DiagonalOperator(jnp.array([1.0, 2.0, 3.0, 4.0, 5.0], dtype=jnp.float32), in_structure=s5))
         yield 'index', (lambda: indices.IndexOperator(jnp.array([4, 0, 0, -2]), in_structure=s5))
         yield 'dense', (lambda: dense.DenseBlockDiagonalOperator(jnp.arange(10.0, dtype=jnp.float32).reshape(2, 5), s5, 'ij,j->i'))
 
-    xin = jnp.array([1.0, -2.0, 3.0, 0.5, 4.0], dtype=jnp.float32)
+    import equinox
+    xin = jnp.array([1.0, -2.0, 3.0, 0.5, 4.0, -1.5, 2.5, 0.25], dtype=jnp.float32)
     for name, make in fresh_subjects():
         try:
             op = make()
-            first = np.asarray(jax.jit(lambda v: op.mv(v))(xin))
+            xv = xin[:op.in_size()]
+            first = np.asarray(jax.jit(lambda v: op.mv(v))(xv))
             results = {
-                'eager': np.asarray(op.mv(xin)),
-                'second_jit': np.asarray(jax.jit(lambda v: op(v))(xin)),
-                'unflattened': np.asarray(jax.tree.unflatten(jax.tree.structure(op), jax.tree.leaves(op)).mv(xin)),
-                'as_matrix': np.asarray(op.as_matrix()) @ np.asarray(xin),
+                'eager': np.asarray(op.mv(xv)),
+                'second_jit': np.asarray(jax.jit(lambda v: op(v))(xv)),
+                'unflattened': np.asarray(jax.tree.unflatten(jax.tree.structure(op), jax.tree.leaves(op)).mv(xv)),
+                'as_matrix': np.asarray(op.as_matrix()) @ np.asarray(xv),
+                'filter_jit_argument': np.asarray(equinox.filter_jit(lambda o, v: o.mv(v))(op, xv)),
                 'transpose_of_same_instance': None,
             }
             del results['transpose_of_same_instance']
@@ -267,6 +275,16 @@ def landscapes_and_tables(spec_cases: list[dict]) -> dict:
                 got = np.asarray(shared(v, yv))
                 if got.shape != eager[k].shape or not np.allclose(got, eager[k], rtol=1e-4, atol=1e-5):
                     out['bad'].append(f'shared_filter_jit:inverse_{k}')
+        # scalar multiples written with Python scalars that are equal but of different types, on integer leaves: the
+        # type decides the result dtype, so the shared jitted function must not reuse one trace for both
+        si = jax.ShapeDtypeStruct((3,), jnp.int32)
+        sel = indices.IndexOperator(jnp.array([2, 0, 0, 1]), in_structure=si)
+        xi = jnp.array([1, 2, 3], dtype=jnp.int32)
+        for k, opk in (('int3', 3 * sel), ('float3', 3.0 * sel), ('neg', -sel), ('negfloat', (-1.0) * sel), ('div', sel / 2)):
+            e = opk.mv(xi)
+            g = shared(opk, xi)
+            if g.dtype != e.dtype or g.shape != e.shape or not np.array_equal(np.asarray(g), np.asarray(e)):
+                out['bad'].append(f'shared_filter_jit:scaled_{k}')
         if np.allclose(eager['pre1'], eager['pre2'], rtol=1e-3):
             out['drift'].append('shared_filter_jit:preconditioners_indistinguishable')
     except Exception as exc:
